@@ -13,8 +13,8 @@ let rec pos_of_int (i : int) : positive =
 let n_of_int (i : int) : n = if i <= 0 then N0 else Npos (pos_of_int i)
 let rec int_of_pos = function XH -> 1 | XO p -> 2 * int_of_pos p | XI p -> 2 * int_of_pos p + 1
 let int_of_n = function N0 -> 0 | Npos p -> int_of_pos p
-let rec nat_of_int (i : int) : nat = if i <= 0 then O else S (nat_of_int (i - 1))
-let rec int_of_nat = function O -> 0 | S n -> 1 + int_of_nat n
+let nat_of_int (i : int) : nat = let rec go i acc = if i <= 0 then acc else go (i - 1) (S acc) in go i O
+let int_of_nat (n : nat) : int = let rec go n acc = match n with O -> acc | S m -> go m (acc + 1) in go n 0
 let z_of_int (i : int) : z = if i = 0 then Z0 else if i > 0 then Zpos (pos_of_int i) else Zneg (pos_of_int (-i))
 let int_of_z = function Z0 -> 0 | Zpos p -> int_of_pos p | Zneg p -> - (int_of_pos p)
 
@@ -93,11 +93,51 @@ let run_fields t : string * string =
   let show w (obs, fin) = String.concat ";" (List.map show_fobs obs) ^ "|" ^ hex (w fin) in
   (show m_write (frun uni_lower [] ops), show s_write (srun uni_lower [] ops))
 
+
+(* ---------- C14: spill buffer ---------- *)
+let parse_sop t : sop =
+  match next t with
+  | "r" -> SRead (nat_of_int (next_int t))
+  | "pk" -> SPeek (nat_of_int (next_int t))
+  | "rb" | "rs" -> SReadBytes (n_of_int (next_int t))
+  | "sk" -> SSeek0
+  | "sz" -> SSize
+  | s -> failwith ("unknown slice op " ^ s)
+let parse_bop t : bop =
+  match next t with
+  | "w" | "ws" -> BWrite (next_hex t)
+  | "rf" -> let d = next_hex t in let _ = next_int t in
+            let ewd = next_int t = 1 in let serr = next_int t = 1 in BReadFrom (d, ewd, serr)
+  | "r" -> BRead (nat_of_int (next_int t))
+  | "pk" -> BPeek (nat_of_int (next_int t))
+  | "rb" | "rs" -> BReadBytes (n_of_int (next_int t))
+  | "sk" -> BSeek0
+  | "sz" -> BSize
+  | "sl" -> let o = next_int t in let l = next_int t in let k = next_int t in
+            let sops = List.init k (fun _ -> parse_sop t) in
+            BSlice (nat_of_int o, (if l <= 0 then None else Some (nat_of_int l)), sops)
+  | s -> failwith ("unknown buffer op " ^ s)
+let show_errc = function ENil -> "nil" | EEOF -> "eof" | EOther -> "err"
+let rec show_bobs = function
+  | ON (n, e) -> Printf.sprintf "n:%d:%s" (int_of_nat n) (show_errc e)
+  | OData (d, e) -> Printf.sprintf "d:%s:%d" (hex d) (if e then 1 else 0)
+  | OSize n -> Printf.sprintf "z:%d" (int_of_nat n)
+  | OUnit -> "-"
+  | OSlice l -> "[" ^ String.concat "," (List.map show_bobs l) ^ "]"
+let run_spill t : string * string =
+  let mmax = next_int t in
+  let _hint = next_int t in
+  let k = next_int t in
+  let ops = List.init k (fun _ -> parse_bop t) in
+  let show l = String.concat ";" (List.map show_bobs l) in
+  (show (b_run (new_buf (nat_of_int mmax)) ops), show (p_run { content = []; poff = O } ops))
+
 (* ---------- main ---------- *)
 let run_line (line : string) : string * string =
   let t = { rest = List.filter (fun s -> s <> "") (String.split_on_char ' ' line) } in
   match next t with
   | "fields" -> run_fields t
+  | "spill" -> run_spill t
   | d -> failwith ("unknown domain " ^ d)
 
 let () =
